@@ -70,9 +70,15 @@ def worker(args, scratch):
             with lock:
                 i = plan["i"]; plan["i"] += 1
                 f = plan["faults"][i] if i < len(plan["faults"]) else "ok"
-                posts.append({"i": i, "body": req.body, "outcome": f})
+                posts.append({"i": i, "body": req.body, "outcome": "ok" if f.startswith("ok") else f, "variant": f})
             if f == "ok":
                 return {"status": 200, "body": b""}
+            if f == "ok-truncated-body":
+                # the host accepts the batch (200) but its response body is cut short: the batch IS acknowledged
+                bump("acknowledgements_with_truncated_body")
+                return {"raw": b"HTTP/1.1 200 OK\r\nContent-Type: text/plain\r\nContent-Length: 32\r\n\r\n12345678", "close": True}
+            if f == "ok-with-body":
+                return {"status": 200, "headers": [("Content-Type", "text/xml")], "body": b"<ok>" + b"x" * 3000 + b"</ok>", "framing": "chunked", "chunks": [7, 100, 5000]}
             if f == "500":
                 return {"status": 500, "body": b"err"}
             if f == "reset":
@@ -93,11 +99,12 @@ def worker(args, scratch):
             r = common.rng("c18", args["shard"], sc, args["tier"])
             with lock:
                 posts.clear(); plan["i"] = 0
-                fp = r.choice(["all-ok", "all-ok", "one-fail", "random", "five-fails", "six-fails"])
+                fp = r.choice(["all-ok", "all-ok", "one-fail", "random", "five-fails", "six-fails", "odd-acks"])
                 if fp == "all-ok": plan["faults"] = []
                 elif fp == "one-fail": plan["faults"] = [r.choice(["500", "reset"])]
-                elif fp == "random": plan["faults"] = [r.choice(["ok", "ok", "500", "reset", "503"]) for _ in range(60)]
+                elif fp == "random": plan["faults"] = [r.choice(["ok", "ok", "500", "reset", "503", "ok-truncated-body", "ok-with-body"]) for _ in range(60)]
                 elif fp == "five-fails": plan["faults"] = ["500"] * 4 + ["ok"]
+                elif fp == "odd-acks": plan["faults"] = [r.choice(["ok-truncated-body", "ok-with-body"]) for _ in range(60)]
                 else: plan["faults"] = ["500", "reset", "500", "503", "500", "ok"]
             originals = {}   # id -> message
             expect_dropped = set()
@@ -241,7 +248,7 @@ def worker(args, scratch):
 def run(tier, rep):
     rep.coverage["rule"] = ("real EventReader (paused tokio clock, so the 15 s retry waits cost nothing) against mock WireServer/IMDS; per scenario 1-5 event files with 0-400 events whose text is drawn from a hostile alphabet "
                             "(<, >, &, quotes, ]]>, <![CDATA[, </Event>, literal entities, Param look-alikes, 2-4 byte characters, whitespace) each carrying a unique id, sizes around the 64KiB batch boundary and single events above it, "
-                            "corrupt files, and upload fault patterns (2xx/500/503/reset, up to and beyond the 5-retry limit). oracle: every POST body < 65536 bytes, parses with expat, each event's CDATA is a flat Param list whose Context1 "
+                            "corrupt files, and upload fault patterns (2xx/500/503/reset, up to and beyond the 5-retry limit; acknowledgements whose response body is chunked or cut short). oracle: every POST body < 65536 bytes, parses with expat, each event's CDATA is a flat Param list whose Context1 "
                             "equals the original text, an id never appears in two different batches nor in a batch acknowledged twice, no loss without upload failures, oversize events dropped, processing ends and files are removed. "
                             "non-trivial = scenario with >= 2 batches, markup-heavy text, an oversize event or an upload fault; distinct by (size class, fault pattern, file count)")
     shards = 8 if tier == "quick" else 16
